@@ -4,7 +4,7 @@
    full and for a shallow walk -- ideal, and as built (open deviations) where that differs.          *)
 EXTENDS MCMultipart, Json
 
-AllDevs == {"Dev_C39_MtimeEpoch"}
+AllDevs == {"Dev_C39_MtimeEpoch", "Dev_C39_CloseRepeats"}
 Case(form) ==
   LET parts == Serialize(tree, form)
       full  == ParseWith(parts, TRUE, {})
@@ -15,12 +15,19 @@ Case(form) ==
       devfull |-> IF dfull = full THEN <<>> ELSE <<dfull.out>>,
       devshallow |-> IF dshal = shal THEN <<>> ELSE <<dshal.out>>]
 
-Emit == tree = <<>> \/ Len(tree) < MinNodes
-        \/ PrintT(<<"BEHAVIOUR", ToJson([tree |-> tree, cases |-> <<Case(TRUE), Case(FALSE)>>])>>)
+\* the Read results of every sender-side file node (<<>> for directories and links)
+Scripts == [i \in 1..Len(tree) |-> IF tree[i].type = "file" THEN Script(tree[i].body, tree[i].rd) ELSE <<>>]
+\* how the consumer drains the MultiFileReader and how many closing delimiters the stream must carry (0 = endless)
+Drain == [k \in 1..Len(ConsumerBufs) |->
+            LET b == ConsumerBufs[k]
+            IN [buf |-> b, closers |-> Closers(b, {}),
+                dev |-> IF Closers(b, AllDevs) = Closers(b, {}) THEN <<>> ELSE <<Closers(b, AllDevs)>>]]
+Beh == [tree |-> tree, scripts |-> Scripts, drain |-> Drain, cases |-> <<Case(TRUE), Case(FALSE)>>]
+Emit == tree = <<>> \/ Len(tree) < MinNodes \/ PrintT(<<"BEHAVIOUR", ToJson(Beh)>>)
 
 \* -simulate: grow one random tree to MaxNodes, print it, start again
 Flush == /\ Len(tree) = MaxNodes
-         /\ PrintT(<<"BEHAVIOUR", ToJson([tree |-> tree, cases |-> <<Case(TRUE), Case(FALSE)>>])>>)
+         /\ PrintT(<<"BEHAVIOUR", ToJson(Beh)>>)
          /\ tree' = <<>>
 GNextSim == IF Len(tree) = MaxNodes THEN Flush ELSE AddNode
 GSpecSim == Init /\ [][GNextSim]_vars
